@@ -20,6 +20,7 @@ RULE = ("Exhaustive: a fixed family of structures with n = 1..5 atoms (quick) / 
         "survivors are exactly the non-deleted atoms in original relative order with all per-atom data; a term survives "
         "iff none of its atoms was deleted and then joins the same tagged atoms with the same type and extra fields. "
         "Non-trivial = proper non-empty subset with at least one term removed and one surviving with shifted indices.")
+RULE += (" Since rounds 9-10: A third of the sparse large structures lose 256-1200 atoms in one call (everything but the fragment and a handful of plain atoms); term tables are sometimes handed over as column-major integer arrays.")
 ASSUMPTIONS = ["duplicate or out-of-range indices are outside the domain and not generated"]
 
 
